@@ -5,8 +5,20 @@ Use of this source code is governed by MIT license that can be found in the LICE
 package parser
 
 import (
+	"sort"
 	"strings"
 )
+
+// SortedIdNames returns the keys of an identifier table in sorted order, so
+// that numbering and output never depend on Go's random map iteration order.
+func SortedIdNames(tab map[string]*Idendity) []string {
+	names := make([]string, 0, len(tab))
+	for name := range tab {
+		names = append(names, name)
+	}
+	sort.Strings(names)
+	return names
+}
 
 func genTempName(in string) string {
 	return "$operator" + in
